@@ -115,7 +115,78 @@ def run(name, props=None):
     return res
 
 
+def run_in_sandbox(name, vdir, rdir, props=None):
+    """like run(), but with a private copy of /verif (vdir) and a private worktree of /repo (rdir): several of these can
+    run side by side.  Only used to fill seeded/RESULTS.json; the registered checks always run on /repo itself."""
+    d = os.path.join(SEEDED, name)
+    with open(os.path.join(d, "meta.json")) as f:
+        meta = json.load(f)
+    props = props or [meta["property"]] + meta.get("also_breaks", [])
+    rc, out = sh(["git", "-C", rdir, "apply", os.path.join(d, "patch.diff")])
+    if rc != 0:
+        return {"name": name, "error": "patch does not apply: " + out[-300:]}
+    res = {"name": name, "checks": {}}
+    try:
+        env = dict(os.environ)
+        env["INOVESA_REPO"] = rdir
+        env["VERIF_EVIDENCE_DIR"] = os.path.join(vdir, ".cache", "seeded_out", "evidence")
+        env["VERIF_REPLAY_DIR"] = os.path.join(vdir, ".cache", "seeded_out", "replays")
+        for sub in ("evidence", "replays"):
+            os.makedirs(os.path.join(vdir, ".cache", "seeded_out", sub), exist_ok=True)
+        for p in props:
+            rc, out = sh([os.path.join(vdir, "check", "run"), p, "--tier", "quick"], cwd=vdir, timeout=3600, env=env)
+            viol = [l for l in out.split("\n") if l.startswith("VIOLATION")]
+            what = [l for l in out.split("\n") if l.startswith("[%s]" % p)]
+            res["checks"][p] = {"exit": rc, "violation": viol[:1], "what": [w[:300] for w in what[:1]]}
+    finally:
+        sh(["git", "-C", rdir, "checkout", "--", "."])
+    res["caught_by"] = [p for p, r in res["checks"].items() if r["exit"] == 1 and r["violation"]]
+    return res
+
+
+def runall_parallel(jobs):
+    """whole regression with `jobs` sandboxes under /tmp (removed afterwards)"""
+    import threading
+    names = sorted(n for n in os.listdir(SEEDED) if os.path.exists(os.path.join(SEEDED, n, "patch.diff")))
+    rc, out = sh(["git", "-C", "/repo", "status", "--porcelain", "--untracked-files=no"])
+    assert out.strip() == "", "/repo has uncommitted changes: " + out
+    base = tempfile.mkdtemp(prefix="seedpar_", dir="/tmp")
+    boxes = []
+    for w in range(jobs):
+        vdir, rdir = os.path.join(base, "v%d" % w), os.path.join(base, "r%d" % w)
+        sh("rsync -a --exclude .cache --exclude replays --exclude .git %s/ %s/" % (VERIF, vdir))
+        sh(["git", "-C", "/repo", "worktree", "add", "-q", "--detach", rdir, "HEAD"])
+        os.symlink("/repo/_build", os.path.join(rdir, "_build"))
+        boxes.append((vdir, rdir))
+    results, lock, todo = {}, threading.Lock(), list(names)
+
+    def worker(box):
+        while True:
+            with lock:
+                if not todo:
+                    return
+                name = todo.pop(0)
+            r = run_in_sandbox(name, box[0], box[1])
+            with lock:
+                results[name] = r
+                print(name, "->", r.get("caught_by"), r.get("error", ""), flush=True)
+    threads = [threading.Thread(target=worker, args=(b,)) for b in boxes]
+    for t in threads:
+        t.start()
+    for t in threads:
+        t.join()
+    for vdir, rdir in boxes:
+        sh(["git", "-C", "/repo", "worktree", "remove", "--force", rdir])
+    shutil.rmtree(base, ignore_errors=True)
+    sh(["git", "-C", "/repo", "worktree", "prune"])
+    with open(os.path.join(SEEDED, "RESULTS.json"), "w") as f:
+        json.dump([results[n] for n in names], f, indent=1)
+
+
 def main():
+    if sys.argv[1] == "runall" and len(sys.argv) > 3 and sys.argv[2] == "--jobs":
+        runall_parallel(int(sys.argv[3]))
+        return
     if sys.argv[1] == "confirm":
         print(json.dumps(confirm(sys.argv[2], sys.argv[3], sys.argv[4]), indent=1))
     elif sys.argv[1] == "run":
